@@ -734,6 +734,8 @@ class Engine:
                     if i in star_idx:
                         if isinstance(v, VTuple):
                             pos.extend(v.items)
+                        elif isinstance(f, VFunc) and f.kind == "builtin" and f.a == "chain":
+                            pos.append(VConc(("starred", v)))      # chain(*generator): flattened by the builtin model
                         else:
                             raise Unsupported("star-args of non-tuple")
                     else:
